@@ -303,7 +303,10 @@ def documented_target(cfg, layout, src, lit):
                 base = parent_dir(src_dir)
                 if base is None:
                     raise Unspecified()
-            elif name.split(".")[0] == "init" or name == "init":
+            elif name == "init" or (name.rsplit(".", 1)[0] == "init"):
+                # `init` without extension, `init.txt`: darklua counts them (file name or file stem equal to the
+                # module folder name), the documentation only speaks of init.lua / init.luau: not decided here.
+                # `init.spec.luau`, `init.server.luau`, ... (stem `init.spec`) are ordinary files.
                 raise Unspecified()
         full = pjoin(base, lit)
     elif root:
